@@ -820,4 +820,36 @@ theorem not_isIndexFile (s : HtmlSite) (ns : List Name) (f : Name) (hf : f ≠ i
   rw [indexHtml_eq] at h2
   exact hf (List.append_cancel_right h2).symm
 
+/-! ## page rows -/
+
+theorem rowsFrom_getElem? (lines : List (Nat × Nat)) (k : Nat) (ts : List (List Nat)) (i : Nat) :
+    (rowsFrom lines k ts)[i]? = (ts[i]?).map fun t => ⟨k + i, entry lines (k + i), t⟩ := by
+  induction ts generalizing k i with
+  | nil => simp [rowsFrom]
+  | cons t ts ih =>
+    cases i with
+    | zero => simp [rowsFrom]
+    | succ i =>
+      simp only [rowsFrom, List.getElem?_cons_succ, ih]
+      have : k + 1 + i = k + (i + 1) := by omega
+      rw [this]
+
+theorem rowsFrom_length (lines : List (Nat × Nat)) (k : Nat) (ts : List (List Nat)) :
+    (rowsFrom lines k ts).length = ts.length := by
+  induction ts generalizing k with
+  | nil => rfl
+  | cons t ts ih => simp [rowsFrom, ih]
+
+theorem rowsFrom_counts (lines : List (Nat × Nat)) (k : Nat) (ts : List (List Nat)) :
+    (rowsFrom lines k ts).map (·.count) = (List.range ts.length).map fun i => entry lines (k + i) := by
+  induction ts generalizing k with
+  | nil => rfl
+  | cons t ts ih =>
+    simp only [rowsFrom, List.map_cons, List.length_cons, List.range_succ_eq_map, ih, List.map_map]
+    simp only [Nat.add_zero, List.cons.injEq, true_and]
+    apply List.map_congr_left
+    intro i _
+    simp only [Function.comp]
+    congr 1; omega
+
 end Grcov.Writers.Docs
